@@ -143,6 +143,19 @@ CHECKS = {
             "trusted: mc/geom.py; circles within 1% of r and rotated shapes within 1e-7 of touching are guarded. Known finding "
             "listed: circular obstacles are assigned with radius r/2 (consequence of the C06 finding)",
             "DESIGN.md §4 C07"),
+    "C10": ("explicit-state BFS over removal histories (network level and scenario level, single/list forms, "
+            "referenced_elements on/off) on every network variant within k deviations of a 5-lanelet base, with all cut-outs "
+            "evaluated as terminal operations at the reached states, against a pure dict-graph reference model and an "
+            "independent referential-integrity scan",
+            "8 network variants (thorough: all 29 within 2 deviations: diamond, sixth lanelet, adjacency flip, sign on all, "
+            "second intersection, shared light, incoming with two lanelets); BFS depth 3 (thorough 4) over every enabled "
+            "removal; after every transition the public snapshot must equal the model's (relations restricted, every other "
+            "element and its content unchanged, signs/lights removed with a lanelet iff no remaining lanelet references them) "
+            "and contain no dangling id; cut-outs: 7 shapes x 8 excluded-type sets and all lanelet subsets of size <=2 at "
+            "every state up to depth 1 (thorough 2), with exact-geometry kept sets and source-unchanged check.",
+            "trusted: the model functions in mc/checks/c10.py (120 lines) and mc/geom.py; incoming.left_of and "
+            "sign.first_occurrence are not asserted (not reference kinds of the statement)",
+            "DESIGN.md §4 C10"),
 }
 
 NOT_YET = {}
